@@ -31,6 +31,7 @@ import (
 //	pwd                    print the working directory
 //	touch FILE...          create the files
 //	sleepexit MS N         sleep MS milliseconds, exit N
+//	hang [TEXT]            print TEXT, block until SIGINT/SIGQUIT/SIGKILL
 //	block FILE [TEXT]      write "pid token" to FILE, print TEXT, block until SIGINT/SIGQUIT (default dispositions)
 //	slowint FILE MS        like block, but on SIGINT exits only after MS milliseconds
 //	trapquit FILE          write pid; on SIGQUIT record CLOCK_MONOTONIC in FILE.quit and exit 0
@@ -89,6 +90,15 @@ func HelperMain() {
 		n, _ := strconv.Atoi(args[2])
 		time.Sleep(time.Duration(ms) * time.Millisecond)
 		os.Exit(n)
+	case "hang":
+		// print TEXT, then block until a signal (default dispositions) ends the process
+		if len(args) > 1 {
+			fmt.Println(strings.Join(args[1:], " "))
+		}
+		signal.Reset(syscall.SIGINT, syscall.SIGQUIT)
+		for {
+			time.Sleep(time.Hour)
+		}
 	case "block":
 		writePid(args[1])
 		if len(args) > 2 {
